@@ -21,13 +21,25 @@ KEYSETS = [("transcript_id", "gene_id", "exon")] * 6 + [
 ]
 GENE_IDS = ["G%d", "ENSG%05d.2", "gene:%d", "FBgn%07d", "g-%d", "gène%d", "locus %d"]
 TX_IDS = ["T%d", "ENST%05d.1", "tx:%d", "FBtr%07d", "t-%d.a", "trañscript%d", "tx %d"]
+# ids that would mean something else in another grammar (GTF has neither key=value pairs nor percent escapes):
+# 'word=' inside the quoted value, '%41'-like sequences, single/double/trailing blanks, non-ASCII letters.
+# "eq" pairs put a 'word=' into the value of the first attribute of every line.
+ODD_IDS = {
+    "eq": (["locus=AT1G%05d", "ID=gene%d", "gene=%d=x", "Name=g%d"], ["locus=AT1G%05d.1", "ID=tx%d", "Parent=g%d", "tr=%d"]),
+    "percent": (["g%%41%d", "%%3Bg%d", "g%d%%", "%%20g%%3D%d"], ["t%%41%d", "%%3Bt%d", "t%d%%25", "%%09t%d"]),
+    "blank": (["locus %d b", "g  %d", "g%d ", "a = %d"], ["tx %d b", "t  %d", "t%d ", "t = %d"]),
+    "unicode": (["gén%dё", "遺伝子%d", "Ünï%d=ß", "γ %d"], ["trä%dж", "転写%d", "Tñ%d=ø", "τ %d"]),
+}
+ODD_VALUES = ["a=b", "key=value pair", "x%41y", "100%", "%3B%3D", "two  blanks", "naïve café", "ID=1", "Ωmega 3=β", "a = b "]
+WHERE = ["late", "early", "both", "late", "none"]
 
 
 def gtf_points():
     return [D for D in M.points() if D["fmt"] == "gtf"]
 
 
-def model(rng):
+def model(rng, ngenes=None, odd=None):
+    """odd: None or a key of ODD_IDS (ids and some attribute values of that family); ngenes: None = 1-3."""
     D = rng.choice(gtf_points())
     tkey, gkey, subfeature = rng.choice(KEYSETS)
     explicit_mode = rng.choice(["none", "none", "none", "all", "some", "some"])
@@ -38,8 +50,17 @@ def model(rng):
     exotic = rng.random() < 0.2
     gfmt = rng.choice(GENE_IDS if exotic else GENE_IDS[:5])
     tfmt = rng.choice(TX_IDS if exotic else TX_IDS[:5])
+    if odd is not None:
+        gfmt, tfmt = rng.choice(ODD_IDS[odd][0]), rng.choice(ODD_IDS[odd][1])
+        if odd != "eq" and rng.random() < 0.5:
+            # one of the two ids stays ordinary
+            if rng.random() < 0.5:
+                gfmt = rng.choice(GENE_IDS[:5])
+            else:
+                tfmt = rng.choice(TX_IDS[:5])
     lines = []
-    ngenes = rng.choice([1, 1, 2, 2, 3])
+    if ngenes is None:
+        ngenes = rng.choice([1, 1, 2, 2, 3])
     tcount = 0
     base = rng.randrange(1, 50)
     for gi in range(ngenes):
@@ -113,10 +134,105 @@ def model(rng):
             chunk = lines[i:i + 5]
             rng.shuffle(chunk)
             lines[i:i + 5] = chunk
+    if odd is not None:
+        names = ["note", "gene_name", "description", "product"]
+        for rec in lines:
+            if rng.random() < 0.6:
+                have = {k for k, _ in rec["attrs"]}
+                k = rng.choice([x for x in names if x not in have])
+                rec["attrs"].append([k, [rng.choice(ODD_VALUES)]])
     for n, rec in enumerate(lines):
         rec["attrs"].append(["tag", ["L%d" % n]])
+    out = {"D": D, "tkey": tkey, "gkey": gkey, "subfeature": subfeature, "lines": lines, "shuffle": shuffle,
+           "explicit_mode": explicit_mode, "derived_like": derived_like}
+    if odd is not None:
+        out["odd"] = odd
+    return out
+
+
+def large_model(rng, where, nlines=None):
+    """
+    A GTF file of 1100-2500 lines (many genes, in gene order or shuffled) in which the `gene`/`transcript` lines of
+    the file itself (for 4-30 of the ids; the other ids have none) are placed
+        where = "late":  all after line 1000      "early": all among the first 900 lines
+                "both":  some early, some late    "none":  no such lines at all
+    Deterministic in (rng state, where, nlines): the check stores only the seed.
+    """
+    D = rng.choice(gtf_points())
+    tkey, gkey, subfeature = rng.choice(KEYSETS[:7])
+    if nlines is None:
+        nlines = rng.choice([1100, 1300, 1700, 2100, 2500])
+    id_first = rng.choice(["g", "t"])
+    gfmt, tfmt = rng.choice(GENE_IDS[:5]), rng.choice(TX_IDS[:5])
+    derived_like = rng.random() < 0.3
+    body, explicit = [], []
+    gi = tcount = 0
+    while len(body) < nlines:
+        gi += 1
+        gid = gfmt % gi
+        seqid, strand, source = rng.choice(SEQIDS), rng.choice("+-"), rng.choice(SOURCES)
+        origin = gi * 1000 + rng.randrange(0, 500)
+        want_expl = where != "none" and rng.random() < 0.06
+        gene_sub = []
+        for _ in range(rng.choice([1, 2, 2, 3])):
+            tcount += 1
+            tid = tfmt % tcount
+            subs = []
+            for k in range(rng.choice([1, 2, 3, 4])):
+                s = origin + rng.randrange(0, 5000)
+                subs.append((s, s + rng.randrange(0, 400)))
+                body.append(line(rng, seqid, source, subfeature, subs[-1][0], subs[-1][1], strand, gkey, gid, tkey, tid, id_first))
+            for _ in range(rng.choice([0, 0, 1, 2])):
+                s = max(1, origin + rng.randrange(-300, 6000))
+                body.append(line(rng, seqid, source, rng.choice([t for t in OTHER_TYPES if t != subfeature]), s,
+                                 s + rng.randrange(0, 900), strand, gkey, gid, tkey, tid, id_first))
+            gene_sub += subs
+            if want_expl and rng.random() < 0.6:
+                s, e = min(s for s, _ in subs), max(e for _, e in subs)
+                if not derived_like and rng.random() < 0.5:
+                    s, e = max(1, s - rng.randrange(1, 50)), e + rng.randrange(1, 50)
+                explicit.append(line(rng, seqid, "gffutils_derived" if derived_like else source, "transcript", s, e, strand,
+                                     gkey, gid, tkey, tid, id_first, plain=derived_like,
+                                     extra=[["transcript_name", ["n%d" % tcount]]] if rng.random() < 0.5 else []))
+        if want_expl and rng.random() < 0.7:
+            s, e = min(s for s, _ in gene_sub), max(e for _, e in gene_sub)
+            if not derived_like and rng.random() < 0.5:
+                s, e = max(1, s - rng.randrange(1, 50)), e + rng.randrange(1, 50)
+            explicit.append(line(rng, seqid, "gffutils_derived" if derived_like else source, "gene", s, e, strand, gkey, gid,
+                                 None, None, "g", plain=derived_like, extra=[["gene_name", ["GN%d" % gi]]] if rng.random() < 0.5 else []))
+    shuffle = rng.choice(["none", "none", "full", "within"])
+    if shuffle == "full":
+        rng.shuffle(body)
+    elif shuffle == "within":
+        for i in range(0, len(body), 8):
+            chunk = body[i:i + 8]
+            rng.shuffle(chunk)
+            body[i:i + 8] = chunk
+    if where != "none" and not explicit:
+        raise ValueError("generator: no gene/transcript line drawn")
+    rng.shuffle(explicit)
+    # distinct positions in the final file (0-based index i is line i+1)
+    total = len(body) + len(explicit)
+    k = len(explicit)
+    if where == "late":
+        pos = rng.sample(range(1001, total), k)
+    elif where == "early":
+        pos = rng.sample(range(0, 900), k)
+    else:
+        pos = rng.sample(range(0, 900), k // 2) + rng.sample(range(1001, total), k - k // 2)
+    lines = [None] * total
+    for p, rec in zip(pos, explicit):
+        lines[p] = rec
+    it = iter(body)
+    for i in range(total):
+        if lines[i] is None:
+            lines[i] = next(it)
+    for n, rec in enumerate(lines):
+        rec["attrs"].append(["tag", ["L%d" % n]])
+    first = [i for i, r in enumerate(lines) if r["featuretype"] in ("gene", "transcript")]
     return {"D": D, "tkey": tkey, "gkey": gkey, "subfeature": subfeature, "lines": lines, "shuffle": shuffle,
-            "explicit_mode": explicit_mode, "derived_like": derived_like}
+            "explicit_mode": "some" if explicit else "none", "derived_like": derived_like and bool(explicit), "where": where,
+            "explicit_at": [min(first), max(first)] if first else []}
 
 
 def line(rng, seqid, source, ft, s, e, strand, gkey, gid, tkey, tid, id_first, extra=(), plain=False):
